@@ -548,11 +548,17 @@ NAME_LENGTHS = [29, 31, 32, 33, 48, 63, 64, 65, 127, 128, 255, 256]
 
 def _snake_tail(k: int) -> str:
     t = ("_measurement_channel_calibrated_value_filtered_average" * (k // 40 + 2))[:k]
-    return t.rstrip("_") + ("x" if t.endswith("_") else "")
+    t = t.rstrip("_") + ("x" if t.endswith("_") else "")
+    if len(t) >= 2 and t[-2] == "_":
+        t = t[:-2] + t[-1] + "x"  # (no one-letter word: `..._c` / `...C` + a nested name is read as an acronym by some case converters)
+    return t
 
 
 def _pascal_tail(k: int) -> str:
-    return ("MeasurementChannelCalibratedValueFilteredAverage" * (k // 40 + 2))[:k]
+    t = ("MeasurementChannelCalibratedValueFilteredAverage" * (k // 40 + 2))[:k]
+    if t and t[-1].isupper():
+        t = t[:-1] + "x"  # (a style-guide PascalCase word has more than one letter)
+    return t
 
 
 def lengthen_names(draw: Any, unit: Unit) -> int:
